@@ -12,6 +12,11 @@ def main():
         print(run_all.dump_all(os.path.join(lib.WORK, "dump")))
     except Exception as ex:
         print("translator failed during setup: %r (the checks will report it)" % ex)
+    try:
+        import xmlcommon
+        xmlcommon.translate_all(ctx)      # also writes Gen/XmlVexprs.v and the regex DFA dump the model runners load
+    except Exception as ex:
+        print("xml translator step failed during setup: %r (the checks will report it)" % ex)
     props = sorted(os.path.relpath(p, lib.COQ)[:-2] + ".vo" for p in glob.glob(os.path.join(lib.COQ, "Properties", "C*.v")))
     ok, out, dt = lib.coq_make(props, timeout=3400)
     print("coq build ok=%s in %.0fs" % (ok, dt))
@@ -19,8 +24,13 @@ def main():
         print(out[-3000:])
     avh = lib.harness_build(ctx, hooks=False)
     print("harness:", avh)
-    rc, out, dt = lib.run([os.path.join(lib.VERIF, "ocaml", "build.sh")], timeout=900)
-    print("model runner rc=%d %s" % (rc, out[-500:] if rc else ""))
+    for sh in sorted(glob.glob(os.path.join(lib.VERIF, "ocaml", "build*.sh"))):
+        rc, out, dt = lib.run([sh], timeout=1800)
+        print("model runner %s rc=%d (%.0fs) %s" % (os.path.basename(sh), rc, dt, out[-500:] if rc else ""))
+    # the hook build of the harness (lock shim, index dumps) is needed by C12/C15/C16
+    if os.path.exists(os.path.join(lib.VERIF, "checks", "locks_common.py")):
+        avh2 = lib.harness_build(ctx, hooks=True)
+        print("harness+hooks:", avh2)
     return 0
 
 
